@@ -7,3 +7,4 @@ import Bmc.Proofs.C10
 #print axioms Bmc.Proofs.C10.unserialisable_sends_nothing
 #print axioms Bmc.Proofs.C10.busy_then_final
 #print axioms Bmc.Proofs.C10.handshake_payload_retries
+#print axioms Bmc.Proofs.C10.sessionless_retries_until_final
